@@ -389,3 +389,7 @@ package schema
 //@   loop 1 invariant forallstr(k, implies(inmap(m, k), sref(m[k]) > sref(looprange)))
 //@   loop 2 invariant len(errs) >= len(outer(errs)) && (len(errs) == 0 || isfresh(errs)) && iff(len(errs) > len(outer(errs)), !forallstr(k, !(visited(k) && len(m[k]) >= 2)))
 //@   loop 3 invariant isfresh(keys) || len(keys) == 0
+
+//@ func (String).Len
+//@   nopanic
+//@   ensures result == typed(str_lenptr(self), *Length) && result != nil && len(result.Lbs) >= 1
